@@ -1,6 +1,6 @@
 (* Model of the SEARCH part of the cutting-planes strategy:
      solver/learn_pb.go:104-160   Solver.cuttingPlanes  (the trail walk), as it is
-                                  after commit 2aa45b5 (cp_loop, cutting_planes);
+                                  at commit 0a73d0f (cp_loop, cp_finish, cutting_planes);
                                   the code before that commit is kept as
                                   cp_loop_old / cutting_planes_old (it is the
                                   subject of the *_old_*_refuted theorems)
@@ -110,18 +110,54 @@ Fixpoint walk (pb : pbset) (md : list Z) (rt : list lit) : walk_res :=
     else walk pb (set_nth (vidx l) 0 md) r
   end.
 
-(* learn_pb.go:143-159  after the loop; [u] is the result of onlyFalsified.
+(* l is already a top-level fact:  abs(s.model[l.Var()]) == 1 && s.litStatus(l) == Sat *)
+Definition is_fact (md : list Z) (l : lit) : bool :=
+  (Z.abs (model_at md l) =? 1) && Bool.eqb (0 <? model_at md l) (0 <? l).
+
+(* learn_pb.go:143-169 (after commit 0a73d0f)  after the loop; [u] is the result
+   of onlyFalsified.
      unit := u.Negation()
      btLvl := pb.backtrackLevel(s, unit)
      pb.roundToOne(s, unit.Var(), lvl)
-     if propagated, learned, ok := pb.clause().SimplifyPB(); !ok { return nil, nil, -1 }
-     else if len(propagated) > 0 { return nil, propagated, 1 }
-     else { return learned, []Lit{unit}, btLvl }
+     full := pb.clause()
+     propagated, learned, ok := full.SimplifyPB()
+     if !ok { return nil, nil, -1 }
+     for _, l := range propagated {
+       if !(abs(s.model[l.Var()]) == 1 && s.litStatus(l) == Sat) { return nil, propagated, 1 } }
+     if len(propagated) > 0 { learned = full }
+     return learned, []Lit{unit}, btLvl
    pb.clause() is NewPBClause (panics when card < 1, sorts by decreasing
-   weight).  SimplifyPB cannot return (no unit, nil, true) when card >= 1
+   weight, does not saturate the weights).  s.model is the model left by the
+   walk.  SimplifyPB cannot return (no unit, nil, true) when card >= 1
    (Proofs/CPSearch.v, finish_no_nil); that branch would make the caller
    dereference a nil clause and is mapped to CPPanicArith. *)
 Definition cp_finish (pb : pbset) (md : list Z) (u : lit) : result :=
+  let unit := - u in
+  let bt := backtrack_level md (vidx u) pb in
+  match round_to_one md (vidx u) pb with
+  | None => CPPanicArith
+  | Some pb' =>
+    if snd pb' <? 1 then CPPanicArith
+    else
+      let full := PBC (sort_terms (set_terms 1 (fst pb'))) (snd pb') in
+      match simplify_pb full with
+      | None => CPUnsat
+      | Some (us, rest) =>
+        if forallb (is_fact md) us then
+          match us, rest with
+          | [], Some c => CPLearn c [unit] bt
+          | [], None => CPPanicArith
+          | _ :: _, _ => CPLearn full [unit] bt     (* every unit is already a fact *)
+          end
+        else CPUnits us
+      end
+  end.
+
+(* the same before commit 0a73d0f:
+     if propagated, learned, ok := pb.clause().SimplifyPB(); !ok { return nil, nil, -1 }
+     else if len(propagated) > 0 { return nil, propagated, 1 }
+     else { return learned, []Lit{unit}, btLvl } *)
+Definition cp_finish_v1 (pb : pbset) (md : list Z) (u : lit) : result :=
   let unit := - u in
   let bt := backtrack_level md (vidx u) pb in
   match round_to_one md (vidx u) pb with
@@ -230,7 +266,7 @@ Fixpoint cp_loop_old (fuel : nat) (n : nat) (rs : list (option pbc)) (pb : pbset
   | O => (CPFuel, md)
   | S f =>
     match only_falsified pb md lvl rt None with
-    | Some u => (cp_finish pb md u, md)
+    | Some u => (cp_finish_v1 pb md u, md)
     | None =>
       if lvl =? 1 then (CPUnsat, md)
       else
@@ -258,6 +294,47 @@ Definition cutting_planes_old_full (st : state) : result * list Z :=
               (pbset_of (st_n st) (st_confl st)) (st_model st) (rev (st_trail st)) (st_lvl st).
 
 Definition cutting_planes_old (st : state) : result := fst (cutting_planes_old_full st).
+
+(* The code between commits 2aa45b5 and 0a73d0f: the current loop with the
+   earlier end (cp_finish_v1).  Only used to state the search-level repetition
+   that 0a73d0f repairs (Properties/C14c.v). *)
+Fixpoint cp_loop_mid (fuel : nat) (n : nat) (rs : list (option pbc)) (pb : pbset)
+         (md : list Z) (rt : list lit) (lvl : Z) : result * list Z :=
+  match fuel with
+  | O => (CPFuel, md)
+  | S f =>
+    match only_falsified pb md lvl rt None with
+    | Some u => (cp_finish_v1 pb md u, md)
+    | None =>
+      if lvl =? 1 then (CPUnsat, md)
+      else
+        match rt with
+        | [] => (CPPanic, md)
+        | _ :: _ =>
+          match walk pb md rt with
+          | WEmpty md' => (CPUnsat, md')
+          | WStop md' l r =>
+            let lvl' := Z.abs (model_at md' l) in
+            match round_to_one md' (vidx l) pb with
+            | None => (CPPanicArith, md')
+            | Some pb1 =>
+              match reason_at rs l with
+              | None => cp_loop_mid f n rs pb1 md' (l :: r) lvl'
+              | Some c =>
+                match round_to_one md' (vidx l) (pbset_of n c) with
+                | None => (CPPanicArith, md')
+                | Some pb2 => cp_loop_mid f n rs (clash pb1 pb2) md' (l :: r) lvl'
+                end
+              end
+            end
+          end
+        end
+    end
+  end.
+
+Definition cutting_planes_mid_full (st : state) : result * list Z :=
+  cp_loop_mid (cp_fuel st) (st_n st) (st_reason st)
+              (pbset_of (st_n st) (st_confl st)) (st_model st) (rev (st_trail st)) (st_lvl st).
 
 (* ------------------------------------------------------------------ *)
 (* The caller: propagateAndSearchPB, solver.go:469-515                 *)
@@ -294,18 +371,29 @@ Inductive caller_res :=
 | KLearn (tr : list lit) (md : list Z) (rs : list (option pbc)) (c : pbc) (lvl : Z).
     (* :502-510: state at the first call of propagate inside unifyLiterals *)
 
+(* solver.go, newLvl == 1 (after 0a73d0f): a unit that is false at level 1 ends
+   the search; one that is already a fact is skipped (continue, BEFORE
+   cleanupBindings); the first other one is bound at level 1 *)
+Fixpoint caller_units (st : state) (md : list Z) (us : list lit) : caller_res :=
+  match us with
+  | [] => KPanic   (* every unit skipped: not produced by cuttingPlanes *)
+  | u :: rest =>
+    if (Z.abs (model_at md u) =? 1) && lit_false md u then KUnsat
+    else if Z.abs (model_at md u) =? 1 then caller_units st md rest
+    else
+      let '(tr1, md1, rs1) := cleanup_bindings 1 (st_trail st) md (st_reason st) in
+      KUnit (tr1 ++ [u]) (set_nth (vidx u) (signed_lvl u 1) md1) rs1 rest
+  end.
+
 Definition caller_of (res : result * list Z) (st : state) : caller_res :=
   match res with
   | (CPPanic, _) | (CPPanicArith, _) => KPanic
   | (CPFuel, _) => KFuel
-  | (CPUnsat, _) => KUnsat                                          (* :471-473 *)
-  | (CPUnits [], _) => KPanic   (* not produced by cp_finish *)
-  | (CPUnits (u :: rest), md) =>                                    (* :474-487 *)
-    if (Z.abs (model_at md u) =? 1) && lit_false md u then KUnsat
+  | (CPUnsat, _) => KUnsat                                          (* newLvl == -1 *)
+  | (CPUnits us, md) => caller_units st md us                       (* newLvl == 1 *)
+  | (CPLearn c props newlvl, md) =>
+    if newlvl =? 1 then caller_units st md props                    (* newLvl == 1 is tested first *)
     else
-      let '(tr1, md1, rs1) := cleanup_bindings 1 (st_trail st) md (st_reason st) in
-      KUnit (tr1 ++ [u]) (set_nth (vidx u) (signed_lvl u 1) md1) rs1 rest
-  | (CPLearn c props newlvl, md) =>                                 (* :491-510 *)
     let '(tr1, md1, rs1) := cleanup_bindings newlvl (st_trail st) md (st_reason st) in
     KLearn (tr1 ++ props)
            (fold_left (fun m l => set_nth (vidx l) (signed_lvl l newlvl) m) props md1)
